@@ -48,7 +48,8 @@ def op_node(it: dict, path: str) -> dict:
         n["operationId"] = it["opid"]
     if it.get("tags") is not None:
         n["tags"] = list(it["tags"])
-    params = [qp(m, True, "string", "path") for m in re.findall(r"{(\w+)}", path)]
+    # "undeclared": the URL-template variables are NOT declared under `parameters` (the generator adds them itself)
+    params = [] if it.get("undeclared") else [qp(m, True, "string", "path") for m in re.findall(r"{(\w+)}", path)]
     k = it.get("kind", "plain")
     resp: dict[str, Any] = {"204": {"description": "none"}}
     if k == "params":
@@ -98,6 +99,10 @@ def op_node(it: dict, path: str) -> dict:
         else:
             params += [{"name": "day", "in": "query", "required": True, "schema": {"type": "string", "format": "date"}},
                        {"name": "at", "in": "query", "required": False, "schema": {"type": "string", "format": "date-time"}}]
+    elif k == "body_opt":
+        params += [qp("dry_run", False, "boolean"), qp("note")]
+        n["requestBody"] = {"required": True, "content": {"application/json": {"schema": {"$ref": "#/components/schemas/Item"}}}}
+        resp = JSON_OBJ
     elif k == "body":
         n["requestBody"] = {"required": True, "content": {"application/json": {"schema": {"$ref": "#/components/schemas/Item"}}}}
         resp = JSON_OBJ
@@ -443,7 +448,7 @@ def run_pipeline(inputs: list[dict], chk: Check | None, texts: list[tuple[str, s
     return out
 
 
-KIND_SCHEMAS = {"params": ["Item"], "manyopt": ["Item"], "ndjson": ["Item"], "overload": ["Item"], "overload3": ["Item"],
+KIND_SCHEMAS = {"body_opt": ["Item"], "params": ["Item"], "manyopt": ["Item"], "ndjson": ["Item"], "overload": ["Item"], "overload3": ["Item"],
                 "body": ["Item"], "overload_meta": ["Meta", "Item"], "overload_thumb": ["Thumb", "Item"], "partial_octet": ["Item"],
                 "partial_sse": ["Item"], "ai_ret": ["AsyncIteratorInfo"], "ai_body": ["AsyncIteratorInfo", "Item"]}
 
@@ -565,6 +570,24 @@ def name_clash_case(rng) -> dict:
     return {"strategy": "operationId", "render": "json", "paths": out_paths}
 
 
+def undeclared_path_case(rng) -> dict:
+    """operations whose URL template uses variables that are NOT declared under `parameters`, combined with request bodies
+    (JSON, multi-content-type) and optional parameters: the client method, its Protocol stub and its mock are rendered by
+    separate generator calls on the same operation object, so the positional order must not depend on which came first"""
+    tag = rng.choice([None, ["items"], ["Users"], ["items", "admin"]])
+    pool = [("/items/{item_id}", ["post", "put", "patch"]), ("/a/{id}/b/{sub_id}", ["post", "put"]), ("/things/{thing_id}/run", ["post", "get"])]
+    paths = []
+    i = 0
+    for path, methods in rng.sample(pool, rng.randint(1, 3)):
+        items = []
+        for m in rng.sample(methods, rng.randint(1, 2)):
+            kind = rng.choice(["body_opt", "body", "overload", "body_opt"]) if m != "get" else rng.choice(["params", "plain"])
+            items.append({"method": m, "opid": f"op{i}", "tags": tag, "kind": kind, "undeclared": rng.random() < 0.8})
+            i += 1
+        paths.append({"path": path, "items": items})
+    return {"strategy": rng.choice(t07.STRATEGIES), "render": "json", "paths": paths}
+
+
 # ---------------------------------------------------------------- entry
 GUARDS: dict[int, str] = {}   # F13a, F13b, F13c, F13e and F01e are fixed: any oracle failure is a violation
 
@@ -585,6 +608,7 @@ def main(chk: Check, replay: dict | None = None) -> int:
     inputs += [gen_case(rng) for _ in range(n)] + [uniform_case(rng) for _ in range(n // 2)]
     inputs += [shared_tag_case(rng) for _ in range(n // 3)]
     inputs += [name_clash_case(rng) for _ in range(max(6, n // 3))]
+    inputs += [undeclared_path_case(rng) for _ in range(max(6, n // 4))]
     for _ in range(max(2, n // 9)):      # F13c stream: a uniform single-tag case with one AsyncIteratorInfo operation
         c = uniform_case(rng)
         if not c["paths"][0]["items"]:
